@@ -350,6 +350,14 @@ class Runner:
         own = [x for x in r['failed'] if x[0].startswith(ob.fn + '.')]
         lock = [x for x in r['failed'] if x[1].startswith('lockstep:')]
         pn, descr = (own or r['failed'])[0]
+        # cbmc's own memory-safety properties do not depend on the shared multiplier circuit: when one of them fails it is reported
+        # first (an out-of-bounds read that leaves the result intact would otherwise only show as a lockstep divergence)
+        builtin = [x for x in r['failed'] if not re.search(r'\.assertion\.\d+$', x[0]) and not x[1].startswith('lockstep:')]
+        builtin.sort(key=lambda x: x[0].startswith('__verif_'))   # failures located in the translated xtl code first
+        if lock and builtin:
+            rdir, status, out = self.make_replay(ob, kfd, builtin[0][0], builtin[0][1], backend=r.get('backend_used'))
+            h.update(kind='violation', rdir=rdir, status=status, out=out, failed=builtin + [x for x in r['failed'] if x not in builtin])
+            return h
         if lock:
             # reference model and (changed?) implementation no longer multiply the same operands in the same order, so the
             # shared-circuit verdicts mean nothing.  The input on which the operand sequences diverge is replayed natively
@@ -380,7 +388,7 @@ class Runner:
             obs = [o for o in obs if re.search(self.only, o.name)]
             units = [u for u in units if any(o.unit == u.name for o in obs)]
         ev = {'property_id': self.id, 'tier': self.tier, 'seed': self.seed, 'level': 'model_checking', 'violations': 0}
-        results = {}; tvres = []; violations = []; known = []; inconclusive = []; handled = {}
+        results = {}; tvres = []; violations = []; known = []; inconclusive = []; handled = {}; probes_run = []
         try:
             with cf.ThreadPoolExecutor(self.jobs) as ex:
                 for u in ex.map(self.build_unit, units): self.units[u.name] = u
@@ -415,6 +423,16 @@ class Runner:
                 handled = dict(zip([f[0] for f in fails], ex.map(lambda f: self.handle_fail(*f), fails)))
         except Inconclusive as e:
             inconclusive.append(str(e)); kres = []
+        # ---- compile-time probes (clauses of a property whose observable is the compiler's verdict, e.g. "usable in constant expressions")
+        for (pname, text, what) in (self.prop.probes(self.tier) if hasattr(self.prop, 'probes') and not self.only else []):
+            pdir = os.path.join(OUT, 'replay', self.id, 'probe_' + pname); shutil.rmtree(pdir, ignore_errors=True); os.makedirs(pdir)
+            src = os.path.join(pdir, 'probe.cpp'); open(src, 'w').write(text)
+            rc, out, err, t = sh([CLANG, '-std=c++17', '-fsyntax-only', '-I' + os.path.join(REPO, 'include'), src], timeout=600)
+            json.dump({'property': self.id, 'probe': pname, 'what': what, 'compile': CLANG + ' -std=c++17 -fsyntax-only -I<repo>/include probe.cpp'}, open(os.path.join(pdir, 'replay.json'), 'w'), indent=1)
+            probes_run.append({'probe': pname, 'what': what, 'compiled': rc == 0})
+            if rc != 0:
+                open(os.path.join(pdir, 'STATUS'), 'w').write('reproduced\n' + err[-3000:])
+                violations.append({'obligation': 'probe/' + pname, 'violated': ['%s (compiler verdict) [probe]' % what], 'replay': pdir, 'replay_status': 'reproduced', 'replay_output': err[-600:]})
         # ---- evaluate
         nq = 0; solver_s = 0.0; samples = []; nontrivial = 0
         for name, (ob, kfd, r) in sorted(list(results.items())):
@@ -481,7 +499,7 @@ class Runner:
                        'rt_models': u.rt, 'functions_encoded': len(u.meta['defined'])} for u in self.units.values()],
             'bounds': getattr(self.prop, 'BOUNDS', {}).get(self.tier, getattr(self.prop, 'BOUNDS', '')),
             'not_covered': getattr(self.prop, 'NOT_COVERED', []),
-            'translation_validation': tvres,
+            'translation_validation': tvres, 'compile_time_probes': probes_run,
             'known_findings_confirmed': known, 'violations_detail': violations, 'inconclusive': inconclusive[:10],
             'cbmc_flags': CBMC_BASE,
         }
@@ -516,6 +534,10 @@ def load_prop(pid):
 def replay(pid, path):
     """re-run a stored counterexample against the real code of /repo's current tree"""
     meta = json.load(open(os.path.join(path, 'replay.json')))
+    if 'probe' in meta:
+        rc, out, err, t = sh([CLANG, '-std=c++17', '-fsyntax-only', '-I' + os.path.join(REPO, 'include'), os.path.join(path, 'probe.cpp')], timeout=600)
+        print(err[-3000:]); print('probe %s: %s' % (meta['probe'], 'compiles (no violation)' if rc == 0 else 'does not compile: ' + meta['what']))
+        return 1 if rc != 0 else 0
     prop = load_prop(pid)
     r = Runner(prop, meta.get('tier', 'quick'), 4)
     os.makedirs(r.bdir, exist_ok=True); prop.BDIR = r.bdir
